@@ -85,6 +85,11 @@ func runC03(c *Ctx) {
 		"LitQ": {Pattern: &annotations.HttpRule_Delete{Delete: "/c03/q/latest"}},
 		"LitS": {Pattern: &annotations.HttpRule_Put{Put: "/c03/star/latest/deep"}, Body: "*"},
 		"LitF": {Pattern: &annotations.HttpRule_Delete{Delete: "/c03/field/latest"}},
+		// another method bound with kind "*" (and another body mapping) on the same templates: a request
+		// with the rule's own verb is still decoded under that rule
+		"AnyF": customRule("*", "/c03/field/{name}", "*"),
+		"AnyS": customRule("*", "/c03/star/{name}/{nested.s}", "nested"),
+		"AnyQ": customRule("*", "/c03/q/{name}", "*"),
 	})
 	if err != nil {
 		c.SpecFail("fixture", "c03", err.Error(), "registered", "C03/fixture", "fixture registration failed")
@@ -458,9 +463,18 @@ func c03API(c *Ctx, pf *paramFx) {
 		send := body
 		if zip {
 			var buf bytes.Buffer
+			cut := len(body)
+			if c.Rng.Intn(3) == 0 && len(body) > 1 { // the compressed body as two concatenated gzip members (RFC 1952 2.2)
+				cut = 1 + c.Rng.Intn(len(body)-1)
+			}
 			w := gzip.NewWriter(&buf)
-			w.Write(body)
+			w.Write(body[:cut]) //nolint
 			w.Close()
+			if cut < len(body) {
+				w = gzip.NewWriter(&buf)
+				w.Write(body[cut:]) //nolint
+				w.Close()
+			}
 			send = buf.Bytes()
 		}
 		var r = httptest.NewRequest(method, reqURL, nil)
@@ -832,6 +846,12 @@ func c07Extra(c *Ctx) {
 		cases = append(cases, tc{"POST", "/c07x/durb/" + capv, `{"dur":"1.5s"}`, "dur", string(want)})
 		cases = append(cases, tc{"POST", "/c07x/durb/" + capv + "?dur.nanos=5", `{"dur":"9.5s","name":"x"}`, "dur", string(want)})
 	}
+	// captured text that spells a JSON literal
+	for _, capv := range []string{"null", "true", "0", "nul"} {
+		cases = append(cases, tc{"GET", "/c07x/many/" + capv + "/" + capv + "?name=QUERY&nested.s=QN", "", "name", capv})
+		cases = append(cases, tc{"GET", "/c07x/oa/" + capv + "?oa=QUERY", "", "oa", capv})
+		cases = append(cases, tc{"POST", "/c07x/oab/" + capv, `{"oa":"BODY"}`, "oa", capv})
+	}
 	for _, capv := range []string{"0", "7", "-1"} {
 		for _, rival := range []string{"w64=7", "w64=9", "w64.value=3"} {
 			cases = append(cases, tc{"GET", "/c07x/w/" + capv + "?" + rival, "", "w64", `"` + capv + `"`})
@@ -884,7 +904,7 @@ func c07Extra(c *Ctx) {
 		if g := field(got, t.field); g != t.want {
 			c.SpecFail("path-wins-extra", in, t.field+"="+g, t.want, "C07/path-overridden/"+t.field, "a query parameter or body value replaced (or was merged into) the value captured from the path")
 		}
-		if strings.HasPrefix(t.target, "/c07x/many/") {
+		if strings.HasPrefix(t.target, "/c07x/many/PATH/") {
 			nested := got.Get(got.Descriptor().Fields().ByName("nested")).Message()
 			if g := nested.Get(nested.Descriptor().Fields().ByName("s")).String(); g != "PATHNESTED" {
 				c.SpecFail("path-wins-extra", in, "nested.s="+g, "PATHNESTED", "C07/path-overridden/nested.s", "a query parameter replaced the value captured from the path")
